@@ -41,13 +41,6 @@ func currentCache() cacheHandle {
 	}
 }
 
-// restoreCache re-installs a cache captured with currentCache().install.
-func restoreCache(saved interface{}) {
-	if f, ok := saved.(func()); ok {
-		f()
-	}
-}
-
 // cacheModel is the reference side of the cache simulation: what has been
 // requested and loaded, against which the invariants I1-I6 of DESIGN §5.4 are
 // checked. It deliberately does not model the eviction policy.
